@@ -124,6 +124,20 @@ def run(ctx):
                              fields=['.DbInner.next_reindex', '.DbInner.last_enacted'])
         st = [bi for bi, t in pr.calls() if call_matches(t, lib.ATOMIC_STORE) and '.DbInner.next_reindex' in lib.receiver_fields(pr, t, 0)]
         ctx.ob('4b reindex-cleared-when-done', 'anchor', pr.path, 'process_reindex clears next_reindex when no column has work', len(st) == 1, '')
+    # a reindex batch walks every source page completely: progress advances by whole pages, so an entry skipped inside a
+    # page is never migrated and disappears when the old index is dropped
+    if rx:
+        ent = rx.call_sites('index::IndexTable::entries', 'ref_count::RefCountTable::entries')
+        ctx.ob('4c page-read-anchor', 'anchor', rx.path, 'reindex reads whole pages of the source table (index and ref-count branch)', len(ent) == 2, str(ent))
+        TRUNC = re.compile(r'Iterator::(take|skip|step_by|take_while|skip_while|nth|last|rev|filter|filter_map|find|position|chain|zip|peekable|scan|map_while)$|::(take|skip|step_by|take_while|skip_while)$')
+        bad = []
+        for bi, t in rx.calls():
+            nm = t.get('r') or t.get('f') or ''
+            if TRUNC.search(t.get('f') or '') or TRUNC.search(nm):
+                if t['a'] and op_place(t['a'][0]) is not None and any(x in ent for x, _ in backward_slice(rx, [op_place(t['a'][0])]).call_sites):
+                    bad.append('%s at %s' % ((t.get('f') or nm), rx.loc(bi)))
+        ctx.ob('4d page-entries-iterated-without-adaptors', 'K4-confinement', rx.path,
+               'the entries of a source page are iterated with plain slice iteration (no take/skip/filter adaptor that could leave entries of a page behind while the page counter advances)', not bad, '; '.join(bad))
     # 5. collision chain
     C05.key_tail_check(ctx, '5')
     # 6. skip if present
